@@ -1,6 +1,65 @@
-(* Props/Properties_C07_ascii.v -- ASCII half of C07 (placeholder while the lock step is being brought up). *)
-From Coq Require Import ZArith List.
+(* Props/Properties_C07_ascii.v -- ASCII (.ovm) half of C07: the reader is memory-safe and terminates on ANY bytes; success
+   means a valid mesh.  Model: IO/AsciiReaderModel.v (read_ascii), validated in lock step against FileManager::readStream /
+   readFile.  [conv_d] / [conv_f] are the floating-point conversions (strtod / strtof): arbitrary functions here - nothing
+   about them is assumed. *)
+From Coq Require Import ZArith List String.
+From OVM Require Import Kernel.Ops.
 From OVM Require Import IO.AsciiStream IO.AsciiReaderModel IO.AsciiProofs.
-Theorem C07_ascii_skipws_consumes : forall l, (length (skipws l) <= length l)%nat.
-Proof. exact skipws_length. Qed.
-Print Assumptions C07_ascii_skipws_consumes.
+Local Open Scope Z_scope.
+Local Open Scope string_scope.
+
+(* For every byte string, every mesh type, both topology-check settings, both bottom-up settings: reading never runs out
+   of fuel in any loop (getCleanLine, the property loop, the valence loops) and never uses a handle that does not fit an
+   int - provided the memory that can be allocated (o_alloc, bytes) is below 2^33, so that every count that passes its
+   reserve() is below 2^30. *)
+Theorem C07_ascii_total : forall conv_d conv_f (o : opts) (bytes : list byte),
+  o_alloc o < 8589934592 ->
+  match read_ascii conv_d conv_f o bytes with RSpin | RUB _ => False | _ => True end.
+Proof. intros. apply (read_stream_safe conv_d conv_f o (of_bytes bytes)). assumption. Qed.
+Print Assumptions C07_ascii_total.
+
+(* Success means a valid mesh: every stored handle designates an existing entity (edges -> vertices, faces -> halfedges,
+   cells -> halffaces, against the ACTUAL entity counts of the mesh returned) and every property the caller can reach -
+   the position property and every persistent property created from the file - has exactly one element per entity of
+   its kind.  No hypothesis: any bytes, any options, any allocation limit, any float conversion. *)
+Theorem C07_ascii_valid : forall conv_d conv_f (o : opts) (bytes : list byte) (f : fin),
+  read_ascii conv_d conv_f o bytes = RTrue f ->
+  mesh_valid (f_mesh f) /\ props_sized f.
+Proof. intros conv_d conv_f o bytes f H. exact (read_stream_valid conv_d conv_f o (of_bytes bytes) f H). Qed.
+Print Assumptions C07_ascii_valid.
+
+(* what mesh_valid / props_sized say, spelled out *)
+Theorem C07_ascii_valid_unfolded : forall conv_d conv_f (o : opts) (bytes : list byte) (f : fin),
+  read_ascii conv_d conv_f o bytes = RTrue f ->
+  (forall a b, List.In (a, b) (edges (f_mesh f)) -> (a < nv (f_mesh f) /\ b < nv (f_mesh f))%nat) /\
+  (forall fc h, List.In fc (faces (f_mesh f)) -> List.In h fc -> (h < 2 * List.length (edges (f_mesh f)))%nat) /\
+  (forall c h, List.In c (cells (f_mesh f)) -> List.In h c -> (h < 2 * List.length (faces (f_mesh f)))%nat) /\
+  (forall p, List.In p (f_props f) -> List.length (p_vals p) = count (p_kind p) (f_mesh f)).
+Proof.
+  intros conv_d conv_f o bytes f H. destruct (read_stream_valid conv_d conv_f o (of_bytes bytes) f H) as [(A & B & C) D].
+  repeat split; auto; apply A in H0; tauto.
+Qed.
+Print Assumptions C07_ascii_valid_unfolded.
+
+(* getCleanLine terminates on every stream with fuel |remaining input| + 2 and only consumes *)
+Theorem C07_ascii_getCleanLine_terminates : forall (s : istream) (line : list byte),
+  exists s' l b, get_clean_line (gcl_fuel s) s line = Some (s', l, b) /\ (length (rest s') <= length (rest s))%nat.
+Proof. intros. destruct (gcl_total (gcl_fuel s) s line (gcl_fuel_ok s)) as (s' & l & b & E & L & _). exists s', l, b. auto. Qed.
+Print Assumptions C07_ascii_getCleanLine_terminates.
+
+(* non-vacuity: a valid tetrahedron file is read successfully under the hypothesis of the theorem *)
+Definition ex_lines (l : list string) : list byte := List.concat (List.map (fun s => bs s ++ (10 :: nil))%list l).
+Definition ex_tet : list byte := ex_lines
+  ("OVM ASCII" :: "Vertices" :: "4" :: "0 0 0" :: "1 0 0" :: "0 1 0" :: "0 0 1" :: "Edges" :: "6" :: "0 1" :: "1 2" :: "2 0" :: "0 3" :: "1 3" :: "2 3" ::
+   "Faces" :: "4" :: "3 0 2 4" :: "3 0 8 7" :: "3 2 10 9" :: "3 4 6 11" :: "Polyhedra" :: "1" :: "4 1 2 4 6" ::
+   "VProp int ""x""" :: "5" :: "6" :: "7" :: "8" :: nil).
+Definition ex_conv (l : list byte) : Z * bool := (0, false).
+Definition ex_opts : opts := {| o_mesh := MPoly; o_check := true; o_bu := true; o_alloc := 4294967296 |}.
+
+Example C07_ascii_total_nonvacuous :
+  o_alloc ex_opts < 8589934592 /\
+  match read_ascii ex_conv ex_conv ex_opts ex_tet with
+  | RTrue f => nv (f_mesh f) = 4%nat /\ length (cells (f_mesh f)) = 1%nat /\ length (f_props f) = 2%nat
+  | _ => False
+  end.
+Proof. vm_compute. repeat split; discriminate || reflexivity. Qed.
